@@ -3,6 +3,7 @@ package engine
 import (
 	"fmt"
 	"math/rand/v2"
+	"strings"
 
 	raft "go.etcd.io/raft/v3"
 	pb "go.etcd.io/raft/v3/raftpb"
@@ -102,7 +103,13 @@ func RunHeal(c *Cluster, seed uint64) *HealResult {
 		}
 		if round >= limit {
 			if res.Exempt == "" {
-				c.chk.report("C15", "lv.converged", nil, fmt.Sprintf("not converged after %d rounds (budget %d): %s", round, limit, firstNonEmpty(why, "probe proposals not applied everywhere")), "lv.converged")
+				msg := fmt.Sprintf("not converged after %d rounds (budget %d): %s", round, limit, firstNonEmpty(why, "probe proposals not applied everywhere"))
+				if strings.Contains(why, "auto-leave still active") {
+					// C10: a leader leaves an auto-leave joint configuration by itself once applied
+					c.chk.report2("C15", "lv.converged", "C10", "mc.autoleave_done", nil, msg, "lv.converged")
+				} else {
+					c.chk.report("C15", "lv.converged", nil, msg, "lv.converged")
+				}
 			}
 			return res
 		}
